@@ -1,6 +1,6 @@
 """C01 - see DESIGN.md section 5"""
 from . import semprops, semjobs
 # naive Adf; the biodivine-based Adf; the naive Adf obtained through hybrid_step() / hybrid_step_opt(false)
-spec, validate = semprops.make(['grounded', 'bio/grounded', 'hyb/grounded', 'hybraw/grounded'], 'grounded', backend_kinds=('grounded',))
+spec, validate = semprops.make(['grounded', 'bio/grounded', 'hyb/grounded', 'hybraw/grounded', 'hybrew/grounded'], 'grounded', backend_kinds=('grounded',))
 replay = semprops.replay
 key = semprops.key
